@@ -153,6 +153,19 @@ func TestC11Rapid(t *testing.T) {
 		}
 		var e xast.Expr
 		operand := func() xast.Expr {
+			// one operand in ten is a node-set expression of another syntactic category than a
+			// path of steps: the bare root, a parenthesised path, a filter expression, . or ..
+			switch rapid.IntRange(0, 39).Draw(rt, "opcat") {
+			case 0:
+				return &xast.Path{Abs: true}
+			case 1:
+				return &xast.Group{X: g.AxisPath(ctx, xgen.PathOpts{MaxSteps: 2, AbsShare: 5, DSlash: 3})}
+			case 2:
+				return &xast.Filter{Primary: &xast.Group{X: g.FlatPath(xref.NodeSet{ctx})}, Preds: []xast.Expr{g.PosN()}}
+			case 3:
+				ax := rapid.SampledFrom([]string{"self", "parent"}).Draw(rt, "dot")
+				return &xast.Path{Steps: []interface{}{&xast.Step{Axis: ax, Test: xast.NodeTest{Kind: "node"}, Abbr: true}}}
+			}
 			if rapid.Bool().Draw(rt, "flatop") {
 				return g.FlatPath(xref.NodeSet{ctx})
 			}
